@@ -53,8 +53,8 @@ def run(ctx):
     quick = ctx.tier == "quick"
     # 1. TLC enumerates the encoded-message pattern classes, states the verdict class of each and checks the decoding rules against
     #    the encoders in both directions (data/PKCS1 through mc/Pkcs1MC); the patterns are printed for replay
-    cfgs = ["Pkcs1MC_quick.cfg", "Pkcs1MC_real.cfg"] if quick else ["Pkcs1MC_small.cfg", "Pkcs1MC_real_all.cfg"]
-    with ThreadPoolExecutor(max_workers=2) as ex:
+    cfgs = ["Pkcs1MC_quick.cfg", "Pkcs1MC_real.cfg", "Pkcs1MC_wide.cfg"] if quick else ["Pkcs1MC_small.cfg", "Pkcs1MC_real_all.cfg", "Pkcs1MC_wide.cfg"]
+    with ThreadPoolExecutor(max_workers=3) as ex:
         rs = list(ex.map(lambda c: ctx.mc("Pkcs1MC", c, workers=8, timeout=1500), cfgs))
     cases = []
     for r in rs:
